@@ -237,3 +237,50 @@ Contract(
     raises={"ValueError": lambda c: z3.BoolVal(True)},
     properties=["C18", "C16"],
 )
+
+
+# ---------------------------------------------------------------------------
+# C18 / C19: small world-level helpers
+# ---------------------------------------------------------------------------
+Contract(
+    "inference.preocf:PreOCF.world_satisfies_conditionalization",
+    params={"self": OCF, "world": TStr, "conditionalization": TForm},
+    returns=TBool,
+    ensures=lambda c, r: [r.t == L.nonempty(L.inter(Wof(c.world.t), L.M(c.conditionalization.t)))],
+    loops={0: LoopSpec("[... for s in world_symbols]", lambda s, j, pre: [s.A(s.solver) == L.inter(pre.A(pre.solver), L.MAll(s.world_symbols.t, j))])},
+    properties=["C18", "C19"],
+    note="a world satisfies a formula iff its assignments meet the formula's models (relative to the assumed symbolize_bitvec)",
+)
+
+
+from pyvc import iterm as _IT  # noqa: E402
+
+_OI = TOptional(TInt)
+RanksOK, _ = _IT.defpred_all(
+    "RanksOK",
+    [LStr.sort, z3.ArraySort(StrSort, _OI.sort()), L.Int],
+    lambda x: x[2],
+    lambda x, k: (lambda v: z3.And(z3.Not(v.isnone), v.val.t >= 0))(_OI.wrap(z3.Select(x[1], LStr.at(x[0], k)))),
+    lambda x, k: LStr.at(x[0], k),
+)
+
+
+def _isocf_inv(s, j, pre):
+    r = s.field(s.self, "ranks")
+    return [RanksOK(r.keys, r.val, j)]
+
+
+def _isocf_post(c, r):
+    rk = c.field(c.self, "ranks")
+    return [r.t == RanksOK(rk.keys, rk.val, LStr.len(rk.keys))]
+
+
+Contract(
+    "inference.preocf:PreOCF.is_ocf",
+    params={"self": OCF},
+    returns=TBool,
+    ensures=_isocf_post,
+    loops={0: LoopSpec("for world in self.ranks.keys()", _isocf_inv)},
+    properties=["C18"],
+    note="True iff every world has a rank and it is non-negative",
+)
